@@ -75,5 +75,10 @@ func (txn *txNoncer) setIfLower(addr common.Address, nonce uint64) {
 	if txn.nonces[addr] <= nonce {
 		return
 	}
+	// The virtual nonce never drops below the account's state nonce: removing a stale transaction
+	// (already below the new head's nonce) during a reset must not rewind it.
+	if base := txn.fallback.GetNonce(addr); nonce < base {
+		nonce = base
+	}
 	txn.nonces[addr] = nonce
 }
